@@ -182,12 +182,17 @@ def scenario(it, facts, body, inst):
         if c in inst:
             assigns[objs[c]] = {'m': ('inst', c)}
     d = objs[MRO[0]]
-    cattrs = it.getattr(d, '_attrs')
-    got_c = cattrs.get('m')
+    # the answers are taken through the protocol the evaluator and assist use (get_attr / attr_list), whatever tables are behind it
+    got_c = it.call(it.getattr(d, 'get_attr'), [ctx, 'm'], {})
+    listed_c = 'm' in set(str(x) for x in it.iterate(it.call(it.getattr(d, 'attr_list'), [ctx], {})))
     # instances are created through supp's own ClassObject.call (raw function under the memo decorator)
     iv = it.call(it.getattr(d, 'call'), [ctx], {})
-    iattrs = it.getattr(iv, '_attrs')
-    got_i = iattrs.get('m')
+    got_i = it.call(it.getattr(iv, 'get_attr'), [ctx, 'm'], {})
+    listed_i = 'm' in set(str(x) for x in it.iterate(it.call(it.getattr(iv, 'attr_list'), [ctx], {})))
+    if listed_c != (got_c is not None):
+        got_c = ('attr_list and get_attr disagree', got_c)
+    if listed_i != (got_i is not None):
+        got_i = ('attr_list and get_attr disagree', got_i)
     return got_c, got_i
 
 
@@ -216,11 +221,11 @@ def sharing_scenario(it, facts):
         tb = it.getattr(ib, '_attrs')
         ia = it.call(it.getattr(objs['A'], 'call'), [ctx], {})
         ta = it.getattr(ia, '_attrs')
+        got_a = it.call(it.getattr(ia, 'get_attr'), [ctx, 'm'], {})
     except InterpRaise as e:
         return False, 'the instance tables raise %s' % e
     va = list(mvs['A'][0].attrs.get('values') or [])
     vb = list(mvs['B'][0].attrs.get('values') or [])
-    got_a = ta.get('m')
     ok = va == [mvs['A'][1]] and vb == [mvs['B'][1]] and got_a is mvs['A'][0]
     return ok, 'the sites recorded for A.m are %s (must stay [%s]), for B.m %s; an instance of A resolves m to %s' % (va, mvs['A'][1], vb, got_a)
 
